@@ -18,6 +18,8 @@ pub struct HistSpec {
     pub id: &'static str,
     pub rule: &'static str,
     pub cmd: fn() -> BoxedStrategy<Cmd>,
+    /// optional whole-history strategy (overrides `cmd`)
+    pub history: Option<fn(usize) -> BoxedStrategy<Vec<Step>>>,
     pub max_len: usize,
     pub quick_cases: u64,
     pub thorough_cases: u64,
@@ -134,7 +136,7 @@ pub fn run(spec: &HistSpec, tier: Tier, seed: u64, replay: Option<Value>) -> i32
     crate::driver::run_cases(
         &ev,
         &cfg,
-        || history_strategy(cmd(), max_len),
+        || match spec.history { Some(h) => h(max_len), None => history_strategy(cmd(), max_len) },
         |_| Worker::new(ServerOpts::default()),
         exec,
         |steps| runner::steps2j(steps),
